@@ -118,11 +118,11 @@ ApplyP(s) == LET a == ApplyPolyX(PLow, s) IN Xor5(a.r, a.x)
 \* z * a mod P
 TopBit(w) == w[1] \div H
 MulZ(a) ==
-  LET sh == << <<(a[1][1] * 2) % M + (a[1][2] \div H), (a[1][2] * 2) % M>>,
-               <<(a[2][1] * 2) % M + (a[2][2] \div H), (a[2][2] * 2) % M + TopBit(a[1])>>,
-               <<(a[3][1] * 2) % M + (a[3][2] \div H), (a[3][2] * 2) % M + TopBit(a[2])>>,
-               <<(a[4][1] * 2) % M + (a[4][2] \div H), (a[4][2] * 2) % M + TopBit(a[3])>>,
-               <<(a[5][1] * 2) % M + (a[5][2] \div H), (a[5][2] * 2) % M + TopBit(a[4])>> >>
+  LET sh == << <<((a[1][1] * 2) % M) + (a[1][2] \div H), ((a[1][2] * 2) % M)>>,
+               <<((a[2][1] * 2) % M) + (a[2][2] \div H), ((a[2][2] * 2) % M) + TopBit(a[1])>>,
+               <<((a[3][1] * 2) % M) + (a[3][2] \div H), ((a[3][2] * 2) % M) + TopBit(a[2])>>,
+               <<((a[4][1] * 2) % M) + (a[4][2] \div H), ((a[4][2] * 2) % M) + TopBit(a[3])>>,
+               <<((a[5][1] * 2) % M) + (a[5][2] \div H), ((a[5][2] * 2) % M) + TopBit(a[4])>> >>
   IN  IF TopBit(a[5]) = 1 THEN Xor5(sh, PLow) ELSE sh
 \* a * b mod P (Horner over the coefficients of b, highest first)
 Mul(a, b) ==
